@@ -56,24 +56,35 @@ class HDiameter:
         self.sent.extend(msgs)
 
 
-class HWorker:
-    name = "w"
+class _Mgr:
+    """multiprocessing.Manager() as the Worker constructor sees it: the shared primitives are scheduler stand-ins"""
+    Event = staticmethod(lambda: CS.HEvent())
+    Queue = staticmethod(lambda: CS.HQueue())
+    Lock = staticmethod(lambda: CS.HLock())
 
-    def __init__(self):
-        self.pending_answers = {}
-        self.send_lock, self.send_queue, self.send_event = CS.HLock(), CS.HQueue(), CS.HEvent()
-        self.app = HDiameter()
+
+APP_IDS = [b"\x01\x00\x00\x23", b"\x01\x00\x00\x31"]        # S6a, SWx: one worker (Diameter interface) each
+
+
+def _reset_class_state(cls):
+    for k, v in list(vars(cls).items()):
+        if isinstance(v, (dict, list, set)) and not k.startswith("__"):
+            v.clear()                       # class-level registries are process-wide: empty at the start of every run
+
+
+class HWorker(BM.Worker):
+    """the REAL Worker object (its own constructor builds its registries and primitives, from a stand-in manager); only the
+    methods that contain blocking operations are replaced by their coroutinised versions"""
+
+    def __init__(self, app_id):
+        app = HDiameter()
+        app.config = {"APPLICATIONS": [{"vendor_id": b"\x00\x00\x28\xaf", "app_id": app_id}]}
+        BM.Worker.__init__(self, app, _Mgr)
         self.logger = _Log()
+        CS.standinize(self, _PRIMS)
 
     def is_running(self):
         return True
-    # real registry methods
-    insert_pending_answer = BM.Worker.insert_pending_answer
-    is_pending_answer = BM.Worker.is_pending_answer
-    get_pending_answer = BM.Worker.get_pending_answer
-    is_send_queue_empty = BM.Worker.is_send_queue_empty
-    send_message = BM.Worker.send_message
-    send_messages = BM.Worker.send_messages
     # real methods containing blocking operations, coroutinised
     set_outgoing_message = CS.coroutinize(BM.Worker.set_outgoing_message, BLOCKING)
     remove_pending_answer = CS.coroutinize(BM.Worker.remove_pending_answer, BLOCKING, points=["pop"])
@@ -83,9 +94,13 @@ class HWorker:
 
 
 class HApp(BM.Bromelia):
-    def __init__(self):
-        self.w = HWorker()
-        self.associations = {b"\x01\x00\x00\x23": self.w}
+    WORKER = HWorker
+
+    def __init__(self, nworkers=1):
+        _reset_class_state(BM.Worker)
+        self.ws = [self.WORKER(APP_IDS[i]) for i in range(nworkers)]
+        self.w = self.ws[0]
+        self.associations = {APP_IDS[i]: w for i, w in enumerate(self.ws)}
         self.send_threshold, self.answer_threshold, self.request_threshold = CS.HBarrier(), CS.HBarrier(), CS.HBarrier()
         self.testing_answer = None
     send_message = CS.coroutinize(BM.Bromelia.send_message, BLOCKING, rebind={"PendingAnswer": HPending}, points=POINTS)
@@ -104,17 +119,13 @@ class HWorkerL(HWorker):
 
 class HAppL(HApp):
     """source-line granularity: a preemption point in front of every statement of the caller/dispatcher paths"""
-
-    def __init__(self):
-        HApp.__init__(self)
-        self.w = HWorkerL()
-        self.associations = {b"\x01\x00\x00\x23": self.w}
+    WORKER = HWorkerL
     send_message = CS.coroutinize(BM.Bromelia.send_message, BLOCKING, rebind={"PendingAnswer": HPendingL}, points=POINTS, lines=True)
     handler_pending_answers = CS.coroutinize(BM.Bromelia.handler_pending_answers, BLOCKING, points=POINTS, lines=True)
 
 
-def _mk(flags, hbh):
-    return DiameterMessage(DiameterHeader(flags=flags, command_code=316, application_id=b"\x01\x00\x00\x23", hop_by_hop=hbh, end_to_end=hbh + 100))
+def _mk(flags, hbh, app_id=APP_IDS[0], e2e=None):
+    return DiameterMessage(DiameterHeader(flags=flags, command_code=316, application_id=app_id, hop_by_hop=hbh, end_to_end=hbh + 100 if e2e is None else e2e))
 
 
 def rendezvous(c: List[bool]) -> bool:
@@ -129,24 +140,32 @@ def rendezvous(c: List[bool]) -> bool:
 def _run(c):
     _PRIMS.clear()
     k = P["k"]
-    app = HAppL() if P.get("lines") else HApp()
-    reqs = [_mk(0xc0, 10 + i) for i in range(k)]
-    answers = [_mk(0x40, 10 + i) for i in range(k)]
+    nw = P.get("workers", 1)
+    app = HAppL(nw) if P.get("lines") else HApp(nw)
+    # caller i uses Diameter interface (worker) i mod nw; with "same_hbh" the requests on different interfaces carry the SAME
+    # Hop-by-Hop identifier (identifiers are only unique per connection)
+    hb = (lambda i: 10) if P.get("same_hbh") else (lambda i: 10 + i)
+    reqs = [_mk(0xc0, hb(i), APP_IDS[i % nw], e2e=200 + i) for i in range(k)]
+    answers = [_mk(0x40, hb(i), APP_IDS[i % nw], e2e=200 + i) for i in range(k)]
+    wof = lambda i: app.ws[i % nw]
     extra = P.get("stray")            # an answer nobody waits for (unknown Hop-by-Hop)
     s = CS.Sched(c, max_preempt=P.get("maxp"))
     for i in range(k):
         s.spawn(f"C{i}", app.send_message(reqs[i]))
     for i in range(k):
-        s.spawn(f"D{i}", app.handler_pending_answers(answers[i]), enabled=(lambda i=i: reqs[i] in app.w.app.sent))
+        s.spawn(f"D{i}", app.handler_pending_answers(answers[i]), enabled=(lambda i=i: reqs[i] in wof(i).app.sent))
     if extra:
         s.spawn("Dx", app.handler_pending_answers(_mk(0x40, 999)))
-    s.spawn("W", app.w.send_handler(), daemon=True)
-    if P.get("eagerW"):
-        s.eager.add("W")
+    wnames = []
+    for j, w in enumerate(app.ws):
+        wnames.append("W" if j == 0 else f"W{j + 1}")
+        s.spawn(wnames[-1], w.send_handler(), daemon=True)
+        if P.get("eagerW"):
+            s.eager.add(wnames[-1])
     try:
         if P.get("phase") == "dispatch":
             # pre-state: every caller parked in wait(), every request on the wire; only the dispatch phase is scheduled
-            s.prelude([f"C{i}" for i in range(k)] + ["W"])
+            s.prelude([f"C{i}" for i in range(k)] + wnames)
         res = s.run()
     except CS.Prune:
         raise IgnoreAttempt("schedule bound")
@@ -156,7 +175,7 @@ def _run(c):
         return False
     reached()
     ok = all(res.get(f"C{i}") is answers[i] for i in range(k))
-    ok = ok and len(app.w.pending_answers) == 0 and len(app.w.app.sent) == k
+    ok = ok and all(len(w.pending_answers) == 0 for w in app.ws) and sum(len(w.app.sent) for w in app.ws) == k
     if REPLAY: note(schedule=s.trace, returned=[(res.get(f"C{i}").header.hop_by_hop.hex() if res.get(f"C{i}") is not None else None) for i in range(k)])
     return ok
 
@@ -169,8 +188,12 @@ def queries(tier, seed):
           Q("k2/dispatch/ops/P2", "rendezvous", {"k": 2, "K": 60, "phase": "dispatch", "eagerW": True, "maxp": 2}, cto=t, pto=t,
             what="2 parked callers, 2 dispatchers interleaved at every registry access / blocking operation: <= 2 preemptions (~1500 schedules)"),
           Q("k2/full/P1", "rendezvous", {"k": 2, "K": 30, "maxp": 1, "eagerW": True}, cto=t, pto=t, what="2 callers + 2 dispatchers from the start, <= 1 preemption, sender eager (~3000 schedules)")]
+    qs.append(Q("k2/two-interfaces/same-hbh/P2", "rendezvous", {"k": 2, "K": 60, "workers": 2, "same_hbh": True, "phase": "dispatch", "eagerW": True, "maxp": 2}, cto=t, pto=t,
+                what="2 callers on 2 Diameter interfaces (one Worker each) whose requests carry the SAME Hop-by-Hop identifier, both parked; 2 dispatchers, <= 2 preemptions"))
     if tier != "quick":
         T = 2400
+        qs.append(Q("k2/two-interfaces/same-hbh/full/P1", "rendezvous", {"k": 2, "K": 40, "workers": 2, "same_hbh": True, "maxp": 1, "eagerW": True}, cto=t, pto=t,
+                    what="the same from the start of both calls, <= 1 preemption"))
         qs += [Q("k1/stray", "rendezvous", {"k": 1, "K": 24, "stray": True}, cto=t, pto=t, what="stray answer with an unknown Hop-by-Hop, unbounded preemptions"),
                Q("k1/lines/all", "rendezvous", {"k": 1, "K": 60, "lines": True, "eagerW": True}, cto=T, pto=T, what="k=1 at source-line granularity, unbounded preemptions (~175 000 schedules)"),
                Q("k2/dispatch/ops/all", "rendezvous", {"k": 2, "K": 60, "phase": "dispatch", "eagerW": True}, cto=t, pto=t, what="dispatch phase, unbounded preemptions (~13 000 schedules)"),
@@ -181,9 +204,10 @@ def queries(tier, seed):
     return qs
 
 
-BOUNDS = ["quick: k=1 every schedule at sync-op granularity, k=1 at source-line granularity with <= 3 preemptions, k=2 dispatch phase (both callers parked) with <= 2 preemptions, k=2 whole scenario with <= 1 preemption; thorough: the same without preemption bound / with larger bounds, k=3",
+BOUNDS = ["the Worker objects are built by the REAL Worker constructor from a stand-in manager (class-level registries emptied per run); 1 interface, and 2 interfaces with equal Hop-by-Hop identifiers",
+          "quick: k=1 every schedule at sync-op granularity, k=1 at source-line granularity with <= 3 preemptions, k=2 dispatch phase (both callers parked) with <= 2 preemptions, k=2 whole scenario with <= 1 preemption; thorough: the same without preemption bound / with larger bounds, k=3",
           "preemption points: every blocking operation and every pending-answer registry access; in the 'lines' queries additionally before every statement of send_message, handler_pending_answers, PendingAnswer.wait/notify, Worker.set_outgoing_message/remove_pending_answer",
           "scheduler choices are boolean solver variables (unary encoding); the sender daemon runs eagerly in the queries marked so"]
-OUTSIDE = ["two outstanding requests with the same Hop-by-Hop id (excluded by C15)", "preemption between bytecodes of one statement without a yield point",
+OUTSIDE = ["two outstanding requests with the same Hop-by-Hop id on the SAME interface (excluded by C15; on different interfaces it is covered)", "preemption between bytecodes of one statement without a yield point",
            "real OS timing; multiprocessing.Manager proxies (in-process stand-ins)", "timeouts fire only at quiescence"]
 ASSUMPTIONS = ["stand-in Lock/Event/Queue/Barrier implement the documented blocking contracts", "an answer cannot reach the dispatcher before its request was handed to the connection layer"]
